@@ -58,7 +58,7 @@ var c10WShapes = []string{"zero-err", "part-err", "full-err", "short-nil", "seco
 // c10ShapeFails: the error of this shape reaches an implementation that hands over its output
 // with one Write (and must then be returned).
 func c10ShapeFails(shape string) bool {
-	return shape == "zero-err" || shape == "part-err" || shape == "full-err"
+	return shape == "zero-err" || shape == "part-err" || shape == "full-err" || strings.HasPrefix(shape, "off-err:")
 }
 
 var c10PercentStrings = []string{"%", "%%", "100%", "%d", "%s", "%v", "%+v", "%#v", "%T", "%q", "%x", "% x", "%-5.2f", "%[1]d", "%[2]*[1]d",
@@ -281,6 +281,129 @@ func (p *c10) writerShapes(r *rand.Rand, t string) []*Case {
 				for _, nf := range []bool{false, true} {
 					for _, shape := range c10WShapes {
 						out = append(out, p.build(r, c10spec{tree: tree, entry: entry, nf: nf, wshape: shape, warmup: tree != "badlit" && r.Intn(6) == 0}, "writer-shapes"))
+					}
+				}
+			}
+		}
+	}
+	return out
+}
+
+// ---- stream large-writer-faults: output SIZE x writer fault ----
+//
+// The outputs of the streams above stay below 64 KiB (the large rich trees reach about 50 KB):
+// an implementation that treats large outputs differently (block-wise writes, a buffered
+// writer of its own, a size threshold) is never asked.  This stream crosses outputs of at least
+// 70 KB, 200 KB and 1 MB (the lower bound is guaranteed by construction: the string literals of
+// the tree alone are that long, and a quoted literal is never shorter than its value) with every
+// writer entry point, NoFormat and formatted, and the writer shapes of c10WShapes plus
+//
+//	third-err   the third Write fails      (success with ONE call, as for second-err)
+//	off-err:N   a writer with room for N bytes (N = 1, 4095, 65535, 65536, 65537, 100000, 131072,
+//	            262144, 500000, always below the size of the output): the one Write that carries
+//	            the output gets (N, err) back, and the error must be returned
+//
+// An implementation that hands over a large output in several calls shows in each of them: the
+// shapes that fail on the first call must return the error whatever the size, and the shapes
+// second-err / third-err / no fault require exactly one Write (c10Judge).  How the size comes
+// about (tag size-by=): literals (3..40 declarations holding long string literals) or mixed
+// (600..1500 rich declarations and literal padding up to the bound).
+var c10BigSizes = []int{70 << 10, 200 << 10, 1 << 20}
+
+var c10BigOffsets = []int{1, 4095, 65535, 65536, 65537, 100000, 131072, 262144, 500000}
+
+func c10BigLit(r *rand.Rand, n int) string {
+	alphabet := []string{"a", "b", "x", "0", " ", "%", "%d", "\"", "\\", "\n", "\t", "é", "日", "`", "/*", "//", "{", "}"}
+	var b strings.Builder
+	for b.Len() < n {
+		w := pick(r, alphabet)
+		for k := 1 + r.Intn(40); k > 0 && b.Len() < n; k-- {
+			b.WriteString(w)
+		}
+	}
+	return b.String()
+}
+
+// c10BigStmts: well-formed declarations whose rendered text is at least min bytes long.
+func c10BigStmts(r *rand.Rand, g *Gen, min int, funcs bool) (sts []*term.Stmt, by string) {
+	by = "literals"
+	if r.Intn(3) == 0 {
+		by = "mixed"
+		for j, n := 0, 600+r.Intn(900); j < n; j++ {
+			sts = append(sts, c10RichDecl(r, g, j, funcs))
+		}
+	}
+	parts := 3 + r.Intn(38)
+	for j := 0; j < parts; j++ {
+		st := term.S(term.Named("Var"), term.Id(fmt.Sprintf("Big%d", j)), term.Op("="), term.Lit(c10BigLit(r, min/parts+1)))
+		k := len(sts)
+		if by == "mixed" {
+			k = r.Intn(len(sts) + 1)
+		}
+		sts = append(sts[:k:k], append([]*term.Stmt{st}, sts[k:]...)...)
+	}
+	return sts, by
+}
+
+func c10SizeTag(n int) string {
+	if n >= 1<<20 {
+		return "size>=1MB"
+	}
+	return fmt.Sprintf("size>=%dKB", n>>10)
+}
+
+// largeWriterFaults: the stream.  quick: every entry point x NoFormat x (70 KB, 200 KB) with 3
+// drawn shapes each + 1 MB x every entry point with 1 shape; thorough: 6 x (1 MB: once) the full
+// cross product of sizes, entry points, NoFormat and all shapes (7) + 3 drawn offsets.
+func (p *c10) largeWriterFaults(r *rand.Rand, t string) []*Case {
+	var shapes []string
+	shapes = append(shapes, c10WShapes...)
+	shapes = append(shapes, "third-err", "none")
+	var out []*Case
+	one := func(size int, entry string, nf bool, shape string) {
+		if shape == "off-err" {
+			var offs []int
+			for _, o := range c10BigOffsets {
+				if o < size {
+					offs = append(offs, o)
+				}
+			}
+			shape = fmt.Sprintf("off-err:%d", offs[r.Intn(len(offs))])
+		}
+		s := c10spec{tree: "big", entry: entry, nf: nf, wshape: shape, big: size, warmup: r.Intn(10) == 0}
+		if shape == "none" {
+			s.wshape = ""
+		}
+		out = append(out, p.build(r, s, "large-writer-faults"))
+	}
+	entries := c10Entries[:len(c10Entries)-1] // the writer entry points (not save)
+	if t != "thorough" {
+		for _, size := range c10BigSizes[:2] {
+			for _, entry := range entries {
+				for _, nf := range []bool{false, true} {
+					one(size, entry, nf, pick(r, []string{"zero-err", "part-err", "full-err"}))
+					one(size, entry, nf, "off-err")
+					one(size, entry, nf, pick(r, []string{"second-err", "third-err", "short-nil", "none"}))
+				}
+			}
+		}
+		for _, entry := range entries {
+			one(c10BigSizes[2], entry, r.Intn(2) == 0, pick(r, append([]string{"off-err", "off-err"}, shapes...)))
+		}
+		return out
+	}
+	for rep := 0; rep < 6; rep++ {
+		for _, size := range c10BigSizes {
+			if size >= 1<<20 && rep > 0 {
+				continue // 1 MB: once (every history line is held in memory, hex-encoded)
+			}
+			for _, entry := range entries {
+				for _, nf := range []bool{false, true} {
+					for _, shape := range shapes {
+						one(size, entry, nf, shape)
+					}
+					for k := 0; k < 3; k++ {
+						one(size, entry, nf, "off-err")
 					}
 				}
 			}
